@@ -9,6 +9,7 @@ DECIDED = ("R1 the barrier registry is an ordered list: appended by push (Barrie
            "diverges before any report; trigger_noop diverges on Suspend; R4 dropping the Triggered handle sends the release when present; "
            "dropping the Barrier unregisters its id.")
 NOT_DECIDED = "interleavings across tasks; exactly-once as observed through wait()."
+DECIDED += "; R5 Barrier::wait performs one receive per call and hands the report to the caller; Barrier::build gives every barrier a fresh id (UUID or a counter that only grows)"
 ASSUMPTIONS = ["tokio unbounded mpsc never rejects a send while the receiver lives"]
 
 BR = "turmoil::barriers::BarrierRepo::"
